@@ -69,6 +69,10 @@ def write_replay(pid, rec, info):
         if test:
             has_input = True
             lines += ["", "concrete counterexample (Kani concrete playback; a unit test that drives the REAL code with these bytes):", "```", test.rstrip(), "```"]
+            if os.environ.get("VERIF_NO_NATIVE_REPLAY") != "1":
+                outcome, text = kani_run.native_playback(h, test)
+                lines += ["", f"native replay of that test against the real code (rustc-compiled, cargo kani playback): {outcome.upper()}", "  " + text]
+                rec["native_replay"] = outcome
         else:
             lines += ["", "Kani produced no concrete playback test for this failure."]
         lines += ["", "verifier output (tail):", rec["_r"].get("raw", "")[-4000:]]
